@@ -1,1 +1,5 @@
 import Rtsp.Props.C08
+#print axioms Rtsp.Codec.Fragmented.c08_inv_init
+#print axioms Rtsp.Codec.Fragmented.c08_inv_decode
+#print axioms Rtsp.Codec.Fragmented.c08_retained_le
+#print axioms Rtsp.Codec.Fragmented.c08_out_le
